@@ -344,15 +344,22 @@ def has_raise(stmts):
     return any(isinstance(n, ast.Raise) for st in stmts for n in ast.walk(st))
 
 
-def backward_slice(body, outputs, stop_at=None):
-    """statements (in order) that the output names depend on"""
+def backward_slice(body, outputs, stop_at=None, cut=()):
+    """statements (in order) that the output names depend on.  Names in `cut` are inputs of the kernel
+    (declared in the site's params): the statement assigning such a name is where the slice stops."""
     need = set(outputs)
     keep = []
     stmts = list(body)
+    cut = set(cut)
     if stop_at is not None:
         stmts = stmts[:stop_at]
     for s in reversed(stmts):
         a = assigned_names(s)
+        if a & need & cut:
+            if not (isinstance(s, ast.Assign) and (a - {"_"}) <= cut):
+                raise Unsupported("cut name assigned together with other names / by a compound statement")
+            need -= a
+            continue
         if a & need:
             keep.append(s)
             if isinstance(s, ast.If):
@@ -536,7 +543,11 @@ def translate_kernel(tree, site):
                     break
             if stop is None:
                 raise Unsupported("stop marker not found: " + site["stop_before"])
-        stmts = backward_slice(body, outputs, stop)
+        cut = site.get("cut", ())
+        for c in cut:
+            if c not in site["params"]:
+                raise Unsupported(f"cut name {c} is not a declared parameter")
+        stmts = backward_slice(body, outputs, stop, cut)
     # parameters not declared but used -> free variable error arises naturally
     stmts = [s for s in stmts if not is_raise_if(s)]
     lets = K.block(stmts, 1)
